@@ -1,0 +1,57 @@
+//go:build verif
+
+// Contracts for the deductive verifier under /verif (foxvc): copy-on-write tree
+// (properties C03, C02, C01). Comments only.
+
+package fox
+
+//@ package fox
+
+//@ -- Snapshot point of the current write transaction: every object whose reference is below
+//@ -- snapRef existed when the last snapshot of the tree was taken (transaction start, Iter on a
+//@ -- write transaction, Txn.Snapshot, Commit) and may be shared with readers; it must never be
+//@ -- written again.  References grow monotonically, so "allocated since" is "reference >= snapRef".
+//@ ghost var snapRef int
+
+//@ -- ---------------------------------------------------------------- node construction
+
+//@ func parseWildcard props C03 partial
+//@   ensures result == nil || fresh(result)
+//@   loop 1: invariant params == nil || fresh(params)
+
+//@ func newNodeFromRef props C03,C02 partial
+//@   ensures result != nil && fresh(result) && same(result.key, key) && result.route == route && result.children == children && result.childKeys == childKeys && result.paramChildIndex == paramChildIndex && result.wildcardChildIndex == wildcardChildIndex
+
+//@ -- newNode sorts `children` in place: the caller must own that array (frame obligation at the call site)
+//@ func newNode props C03,C02 partial
+//@   modifies elems(children)
+//@   ensures result != nil && fresh(result) && same(result.key, key) && result.route == route && result.children == children && len(result.childKeys) == len(children) && (len(children) > 0 ==> fresh(result.childKeys))
+
+//@ func (*node).clone props C03 partial
+//@   requires n != nil
+//@   ensures result != nil && fresh(result) && same(result.key, n.key) && result.route == n.route && len(result.children) == len(n.children) && (len(n.children) > 0 ==> fresh(result.children)) && result.childKeys == n.childKeys
+//@   ensures forall i int :: {result.children[i]} 0 <= i && i < len(n.children) ==> result.children[i] == n.children[i]
+
+//@ func (*node).getEdges props C03 partial
+//@   requires n != nil
+//@   ensures len(result) == len(n.children) && cap(result) == len(result) && (len(result) > 0 ==> fresh(result))
+//@   ensures forall i int :: {result[i]} 0 <= i && i < len(n.children) ==> result[i] == n.children[i]
+
+//@ func recreateParentEdge props C03 partial
+//@   requires parent != nil && len(parent.children) >= 1
+//@   ensures len(result) == len(parent.children) - 1 && (len(result) > 0 ==> fresh(result))
+
+//@ func (*node).isLeaf props C02,C03
+//@   requires n != nil
+//@   ensures result <==> n.route != nil
+
+//@ func (*node).getEdge props C01,C03 partial
+//@   requires n != nil
+//@   requires safety-sorted: len(n.children) > 50 ==> sortedBytes(n.childKeys)
+//@   ensures result != nil ==> exists i int :: 0 <= i && i < len(n.children) && result == n.children[i]
+
+//@ -- updateEdge overwrites one slot of n.children: n's children array must be owned by the writer
+//@ func (*node).updateEdge props C03 partial
+//@   requires n != nil && node != nil
+//@   requires safety-sorted: len(n.children) > 50 ==> sortedBytes(n.childKeys)
+//@   modifies elems(n.children)
